@@ -235,6 +235,25 @@ class G:
         hit("q"); return self.p + self.pq
 ''', sources={"raw_p": "int", "pq": "int"}, derived={"p": (["raw_p"], lambda s: s["raw_p"] * 2, "cached"),
                                                         "q": (["pq", "p"], lambda s: s["p"] + s["pq"], "cached")}),
+    # the documented way of adding accessors (`@p.getter`, `@p.setter`) REBUILDS the property: the rebuilt one still has its dependencies
+    "rebuilt_property": dict(src='''
+@spec_class
+class G:
+    a: int = 1
+    b: int = 10
+    @spec_property(cache=True, invalidated_by=["a"])
+    def p(self):
+        return -1
+    @p.getter
+    def p(self):
+        hit("p"); return self.a * 2
+    @spec_property(cache=True, invalidated_by=["a", "b"])
+    def q(self):
+        hit("q"); return self.a + self.b
+    @q.setter
+    def q(self, value):
+        self.__dict__["q"] = value          # (stores an override, as the default setter would)
+''', sources={"a": "int", "b": "int"}, derived={"p": (["a"], lambda s: s["a"] * 2, "cached"), "q": (["a", "b"], lambda s: s["a"] + s["b"], "cached")}),
     "failing_factory": dict(src='''
 FAIL = {"on": False}
 def fac():
